@@ -596,6 +596,14 @@ def run(chk, replay=None):
         big.append({"ConfigSet": {"key": c07.K("big%d" % (j % 700), "g1", ""), "value": "v%d" % j, "config_type": None, "desc": None,
                                   "history_id": hid, "history_table_id": None, "op_time": 1700000000000 + hid, "op_user": None}})
     rcases.append({"threshold": 100000, "phases": [{"reqs": big}, {"reqs": big[:3]}], "plants": [], "pace": True})
+    # ONE key changed more often than the history bound (100), compacted while its history is AT the bound, then restarted:
+    # the history served after the restart must be the one served before the stop
+    hot = []
+    for j in range(150):
+        hid += 1
+        hot.append({"ConfigSet": {"key": c07.K("hot", "g1", ""), "value": "h%d" % j, "config_type": None, "desc": None,
+                                  "history_id": hid, "history_table_id": None, "op_time": 1700000000000 + hid, "op_user": None}})
+    rcases.append({"threshold": 40, "phases": [{"reqs": hot}, {"reqs": hot[:1]}], "plants": [], "pace": True})
     r_out = lib.harness_run_parallel("restart", rcases, shards=8, env=env, timeout=2400)
     compactions = 0
     planted = 0
